@@ -79,7 +79,11 @@ def check_pair(acc, pendulum, za, ia, zb, ib, clone_b=False, native=True):
              ("interval", lambda: pendulum.interval(a, b), diff),
              ("abs", lambda: abs(b - a), abs(diff)),
              ("absolute=True", lambda: pendulum.interval(a, b, absolute=True), abs(diff)),
-             ("diff-default", lambda: a.diff(b), abs(diff))]
+             ("diff-default", lambda: a.diff(b), abs(diff)),
+             # abs() of intervals that are ALREADY absolute (whichever endpoint was given first), and twice
+             ("abs-of-diff-default", lambda: abs(a.diff(b)), abs(diff)), ("abs-of-diff-default-rev", lambda: abs(b.diff(a)), abs(diff)),
+             ("abs-of-absolute", lambda: abs(pendulum.interval(a, b, absolute=True)), abs(diff)),
+             ("abs-abs", lambda: abs(abs(a - b)), abs(diff))]
     if za is not None and not clone_b:
         # the same endpoints with the other raw fold flag where it is inert (an unambiguous wall time built by
         # pendulum.datetime() carries fold=1, a converted one fold=0): same instants, same length
